@@ -42,6 +42,14 @@ PROPS["C19"] = {
     "explanation": "Theorems: InMemLoader refines a finite map keyed by normalize(path) under every history (set-then-open, delete under every spelling, spelling independence, keys canonical), Exists implies Open; Multi opens the first loader that has the path and keeps the contract. Tie B: real InMemLoader / Multi vs the model on the same histories; direct oracle: the harness's own record keyed by path.Clean.",
 }
 
+PROPS["C16"] = {
+    "lean_modules": ["C16"],
+    "rule": "histories of 4-15 operations on one Set: GetTemplate (often immediately repeated), Parse, Execute of a previously returned template (its includes are resolved at that moment), loader edits / deletions / fault injection (Exists true but Open or Read failing, syntax errors), over 4 base paths x extension lists ([\"\",.jet,.html.jet,.jet.html], [.jet], [.html,\"\"], [.a,.b]) x development mode on/off, with a recording Loader and a recording custom Cache; templates import and include each other by absolute and relative names (import cycles included). Non-trivial = more than 5 operations; distinct = distinct history.",
+    "trusted_base": COMMON_TB + ["the abstract content language (marker, imports, includes, syntax-error flag) is rendered to real template source by the harness; sync.Map semantics of the default cache are replaced by a recording custom Cache (WithCache)"],
+    "assumptions": ["single goroutine", "a well-behaved Cache (Get after Put returns the template)"],
+    "explanation": "Theorems over the abstract Set model for every fuel and state: a second lookup outside dev mode returns the identical template and only touches the cache; dev mode never calls Cache.Get/Put; Parse never caches (neither itself nor what it pulls in); extensions are probed in configured order, first existing file wins, all are probed on a miss; frame_all: which calls any lookup may make, by mode and caching flag. Tie B: call traces (Exists/Open/Get/Put in order), identity classes of returned templates and rendered markers of the real Set vs the model on the same histories.",
+}
+
 # Texts for MANIFEST.json (gen_manifest.py)
 MANIFEST_TEXT = {
     "C15": {
@@ -88,5 +96,10 @@ MANIFEST_TEXT = {
         "level": "Machine-checked Lean 4 theorems over all histories of Set/Delete and all spellings: the in-memory loader is a finite map keyed by the normalised path (set-then-open returns the stored content under every spelling with that normal form, delete removes it under every spelling and nothing else, Exists implies Open); Multi.Open is the first stacked loader's Open that succeeds and Multi keeps Exists => Open. File-system loaders are modelled as a tree of regular files; their agreement with os/http/embed is exercised on real trees (partial by nature).",
         "note": "Trusted: Lean kernel + standard axioms; Path model (C15); the file-system part is observed, not proved.",
         "technique": "Lean 4 proof (refinement of a finite map; induction over loader stacks) + differential correspondence + direct oracle on real trees",
+    },
+    "C16": {
+        "level": "Machine-checked Lean 4 theorems (induction on fuel over the mutually recursive lookup/load/header functions of an abstract Set model): identical-and-silent second lookup, dev mode never uses the cache, Parse never caches, extension order, and a frame theorem bounding the loader/cache calls of every lookup by mode and caching flag. Tied to /repo by differential execution of operation histories with a recording Loader and Cache, comparing call traces, template identity classes and rendered output after edits.",
+        "note": "'Failures are never cached' is covered by the frame theorem only in the form 'Put happens exactly on the success path' plus correspondence (failed lookups retried after a repair are part of the histories).",
+        "technique": "Lean 4 proof (invariant by induction on fuel) about a hand-written abstract model + differential correspondence over operation histories + direct oracle",
     },
 }
